@@ -175,6 +175,24 @@ def check_fcn_wrapper(seed):
     return None
 
 
+def check_market_share(seed):
+    """MarketShareFCNAgent: the venue is drawn among the ACCESSIBLE markets, so an agent whose expected price differs from the market price always places its one order"""
+    from pams.agents import MarketShareFCNAgent
+    rng = random.Random(seed)
+    ms = [mk(i, 300.0 + 10 * i, rng=rng, steps=rng.randint(2, 6)) for i in range(3)]
+    for m in ms:
+        m._executed_volumes[m.time] = rng.randint(0, 50)
+    ms[2]._executed_volumes[ms[2].time] = 100000          # a busy market the agent cannot access
+    a = MarketShareFCNAgent(agent_id=7, prng=RecPrng(seed), simulator=Sim(), name="s")
+    a.asset_volumes = {0: 10, 1: 10}; a.cash_amount = 1000
+    a.fundamental_weight, a.chart_weight, a.noise_weight = 1.0, 0.5, 1.0
+    a.noise_scale = 0.01; a.time_window_size = 3; a.mean_reversion_time = 2; a.order_margin = 0.01; a.margin_type = 0; a.is_chart_following = True
+    got = a.submit_orders(ms)
+    if len(got) != 1 or not wf(got[0], a, {0, 1}):
+        return f"MarketShareFCNAgent.submit_orders returned {_sig(got)}: expected exactly one well-formed order on an accessible market (markets 0 and 1; market 2 is not accessible)"
+    return None
+
+
 def check_setups(seed):
     """set-up from a configuration with constant parameters: every strategy parameter of the three agents equals the value configured under ITS OWN key"""
     from pams.simulator import Simulator
@@ -226,7 +244,7 @@ def check_setups(seed):
 
 
 CHECKS = [("FCNAgent.setup", check_setups), ("MarketMakerAgent.setup", check_setups), ("ArbitrageAgent.setup", check_setups), ("FCNAgent.submit_orders_by_market", check_fcn), ("MarketMakerAgent.submit_orders", check_mm), ("MarketMakerAgent.get_base_price", check_mm), ("ArbitrageAgent._submit_orders", check_arb),
-          ("ArbitrageAgent.submit_orders", check_arb_wrapper), ("FCNAgent.submit_orders", check_fcn_wrapper)]
+          ("ArbitrageAgent.submit_orders", check_arb_wrapper), ("FCNAgent.submit_orders", check_fcn_wrapper), ("MarketShareFCNAgent.submit_orders", check_market_share)]
 
 
 def search(seed, tier, obligation, hints):
